@@ -65,7 +65,19 @@ pub fn run(ctx: &Ctx, id: &str, only: Option<&str>) -> CheckResult {
             }
         }
         let t0 = std::time::Instant::now();
-        (s.run)(ctx)?;
+        // Safety net: a panic that escapes a sub-check (an operation under test that panicked
+        // outside a generated-case wrapper, e.g. inside an exhaustive sweep) is a violation of
+        // the operation's totality, not a harness failure.
+        match crate::ctx::catch(|| (s.run)(ctx)) {
+            Ok(r) => r?,
+            Err(m) => {
+                return Err(ctx.violation(
+                    "subpanic",
+                    format!("panic escaped from sub-check {}: {}", s.name, m),
+                    serde_json::json!({"sub": s.name, "tier": if ctx.tier == crate::ctx::Tier::Quick { "quick" } else { "thorough" }}),
+                ))
+            }
+        }
         ctx.note(format!("sub-check {} took {:.2}s", s.name, t0.elapsed().as_secs_f64()));
     }
     Ok(())
@@ -75,9 +87,15 @@ pub fn replay(ctx: &Ctx, v: &Value) -> CheckResult {
     let id = v.get("property").and_then(|x| x.as_str()).unwrap_or("");
     let check = v.get("check").and_then(|x| x.as_str()).unwrap_or("");
     let case = v.get("case").cloned().unwrap_or(Value::Null);
-    match replay_dispatch(ctx, id, check, &case) {
-        Ok(()) => Ok(()),
-        Err(m) => Err(ctx.violation(check, m, case)),
+    if check == "subpanic" {
+        // re-run the whole sub-check that panicked
+        let sub = case.get("sub").and_then(|x| x.as_str()).unwrap_or("");
+        return run(ctx, id, Some(sub));
+    }
+    match crate::ctx::catch(|| replay_dispatch(ctx, id, check, &case)) {
+        Ok(Ok(())) => Ok(()),
+        Ok(Err(m)) => Err(ctx.violation(check, m, case)),
+        Err(m) => Err(ctx.violation(check, format!("panic: {}", m), case)),
     }
 }
 
